@@ -63,6 +63,15 @@ theorem verify_only_signed (he : Bilinear e) (pp : Params G1 G2 GT) (g2alpha : G
   · intro h; exact sub_eq_zero.1 (hnd _ h)
   · intro h; rw [h, sub_self, he.zero_left, one_pow]
 
+/-- The limit of "exactly": a signature whose total exponent `k = ρ + s` kills the generator (`k • g = 0`, i.e. the signing exponent
+cancels the key's own randomness modulo the group order) is `(g2alpha + k•(…), 0)` and verifies for EVERY message and attribute
+product.  This is the scheme, not the code; with honest randomness it has probability 1/r (observation (x) of DESIGN.md, exercised by the
+stream through a scripted randomness callback). -/
+theorem verify_degenerate (he : Bilinear e) (pp : Params G1 G2 GT) (g2alpha : G1)
+    (α : Nat) (hs : SetupOk e pp g2alpha α) (prod prod' : G1) (msg msg' k : Nat) (hk : k • pp.g = 0) :
+    verify e pp prod' (g2alpha + k • (prod + msg • pp.hsig), k • pp.g) msg' := by
+  rw [Wk.verify_exact he pp g2alpha α hs, ← he.nsmul_right, hk, he.zero_right]
+
 end verify
 
 /-! ### Non-vacuity -/
